@@ -155,4 +155,5 @@ func genExtra() {
 	genC01()
 	genC08()
 	genC07()
+	genC15()
 }
